@@ -17,6 +17,9 @@ Leaves == {
   [t |-> "obj", home |-> H("datetime", <<"date">>), text |-> <<"datetime", "date">>, tag |-> "pydate"],  \* repr: datetime.date(...)
   [t |-> "enum", home |-> H("M", <<"Color">>), member |-> "RED"],
   [t |-> "enum", home |-> H("M", <<"Outer", "Shade">>), member |-> "DARK"],
+  \* members of enums that ALSO subclass a primitive type (IntEnum, (str, Enum)): still enum members, not numbers / strings
+  [t |-> "enum", home |-> H("M", <<"Prio">>), member |-> "HIGH"],
+  [t |-> "enum", home |-> H("M", <<"Tag">>), member |-> "A"],
   [t |-> "model", home |-> H("M", <<"Outer", "Inner">>), fields |-> << [name |-> "x", v |-> P("int:5"), dflt |-> P("none")] >>],
   \* qualified names three levels deep: the import line must still bind the TOP-LEVEL class
   [t |-> "enum", home |-> H("M", <<"Outer", "Mid", "Tint">>), member |-> "PALE"],
